@@ -5,6 +5,8 @@
 //! case line (see lean/MdModel/Walk.lean):
 //!   walk <arch> <os> ctx:<r=v,..> valid:<all|-|r,..> stack:<none|base:hex> mods:<-|base:size:name,..>
 //!        (sym:<module>:<records>)* (symraw:<module>:<hex text>)*
+//! STACK CFI rule text inside `sym:` records: `C`/`A` readable (`_` = space, plain texts only),
+//! `c`/`a` hex-encoded UTF-8 (anything a symbol-file line can hold).
 //! `symraw` fields carry arbitrary symbol text (corrupted files, STACK WIN records): such cases are
 //! oracle-only (the model is not asked). The shared pieces are `pub` for the `chain` engine.
 
@@ -111,11 +113,30 @@ fn static_name(arch: &str, n: &str) -> Option<&'static str> {
 
 // ------------------------------------------------------------------------------------ case text
 
+// STACK CFI rule text travels in one of two forms: readable (`C|addr|size|rules`, `A|addr|rules`,
+// `_` standing for a space) for plain texts, hex-encoded UTF-8 (`c|addr|size|hex`, `a|addr|hex`) for
+// everything else a symbol-file line can hold (leading blanks, tabs, form feeds, `_ ; | ,`, non-ASCII).
+// The readable form is exact on plain texts only, so it is used for nothing else; both are parsed
+// (old corpus lines keep working).
 fn enc_rules(r: &str) -> String {
     r.replace(' ', "_")
 }
 fn dec_rules(r: &str) -> String {
     r.replace('_', " ")
+}
+/// texts the readable form carries exactly
+pub fn plain_rules(r: &str) -> bool {
+    !r.is_empty()
+        && !r.starts_with(' ')
+        && r.chars().all(|c| c == ' ' || (c.is_ascii_graphic() && !matches!(c, '_' | ';' | '|' | ',')))
+}
+/// a symbol-file line cannot hold CR / LF
+fn dec_hex_rules(h: &str) -> Option<String> {
+    let t = String::from_utf8(unhex(h)?).ok()?;
+    if t.contains('\n') || t.contains('\r') {
+        return None;
+    }
+    Some(t)
 }
 
 pub fn render_recs(recs: &[Rec]) -> String {
@@ -123,8 +144,10 @@ pub fn render_recs(recs: &[Rec]) -> String {
         .map(|r| match r {
             Rec::F { addr, size, psize, name } => format!("F|{addr}|{size}|{psize}|{name}"),
             Rec::P { addr, psize, name } => format!("P|{addr}|{psize}|{name}"),
-            Rec::C { addr, size, rules } => format!("C|{addr}|{size}|{}", enc_rules(rules)),
-            Rec::A { addr, rules } => format!("A|{addr}|{}", enc_rules(rules)),
+            Rec::C { addr, size, rules } if plain_rules(rules) => format!("C|{addr}|{size}|{}", enc_rules(rules)),
+            Rec::A { addr, rules } if plain_rules(rules) => format!("A|{addr}|{}", enc_rules(rules)),
+            Rec::C { addr, size, rules } => format!("c|{addr}|{size}|{}", hex(rules.as_bytes())),
+            Rec::A { addr, rules } => format!("a|{addr}|{}", hex(rules.as_bytes())),
         })
         .collect::<Vec<_>>()
         .join(";")
@@ -222,6 +245,8 @@ impl Case {
                         ["P", a, ps, n] => Rec::P { addr: a.parse().ok()?, psize: ps.parse().ok()?, name: n.to_string() },
                         ["C", a, z, r] => Rec::C { addr: a.parse().ok()?, size: z.parse().ok()?, rules: dec_rules(r) },
                         ["A", a, r] => Rec::A { addr: a.parse().ok()?, rules: dec_rules(r) },
+                        ["c", a, z, h] => Rec::C { addr: a.parse().ok()?, size: z.parse().ok()?, rules: dec_hex_rules(h)? },
+                        ["a", a, h] => Rec::A { addr: a.parse().ok()?, rules: dec_hex_rules(h)? },
                         _ => return None,
                     });
                 }
@@ -563,6 +588,25 @@ pub fn walk_tags(case: &Case, stack: &CallStack, res: &mut ImplResult) {
     if stack.frames.len() > 1 && stack.frames[1].context.get_stack_pointer() == stack.frames[0].context.get_stack_pointer() {
         res.tags.push("leaf-repeat".into());
     }
+    // STACK CFI rule texts only the hex form of the protocol carries
+    let texts = case.syms.iter().flat_map(|(_, recs)| recs.iter()).filter_map(|r| match r {
+        Rec::C { rules, .. } | Rec::A { rules, .. } => Some(rules.as_str()),
+        _ => None,
+    });
+    let (mut hexed, mut lead) = (false, false);
+    for t in texts {
+        hexed |= !plain_rules(t);
+        lead |= t.starts_with(' ') || t.starts_with('\t');
+    }
+    if hexed {
+        res.tags.push("cfi-text:hex".into());
+        if stack.frames.iter().skip(1).any(|f| f.trust == FrameTrust::CallFrameInfo) {
+            res.tags.push("cfi-text:hex+cfi-frame".into());
+        }
+    }
+    if lead {
+        res.tags.push("cfi-text:leading-blank".into());
+    }
 }
 
 // ----------------------------------------------------------------------------------- generator
@@ -585,6 +629,45 @@ pub struct World {
     pub syms: Vec<(String, Vec<Rec>)>,
     /// plausible return addresses: (absolute address, has a FUNC/PUBLIC covering it)
     pub rets: Vec<u64>,
+}
+
+/// `cfi_rules`, now and then written the way only the hex form of the protocol can carry: leading
+/// blanks / tabs (swallowed by the symbol-file parser: matters for the order of two deltas at one
+/// address), tabs / form feeds / runs of blanks between tokens, a leading form feed (NOT swallowed),
+/// trailing blanks, and tokens with `_`, `;`, `|`, `,` or non-ASCII characters (unknown registers)
+fn cfi_rules_text(rng: &mut Rng, arch: &str) -> String {
+    let mut s = cfi_rules(rng, arch);
+    if !rng.chance(1, 10) {
+        return s;
+    }
+    if rng.chance(1, 2) {
+        const ODD: &[&str] = &["r_x: 1", "$r_x: .cfa", "a|b: 2", "x;y: 3", "p,q: 4", "\u{e9}: 5", "\u{10000}z: 6", "_: 7",
+            "$rbx: $r_x", "$ebx: a|b", "x19: \u{a0}"];
+        s.push(' ');
+        s.push_str(*rng.pick(ODD));
+    }
+    if rng.chance(1, 2) {
+        const SEP: &[&str] = &["\t", "  ", "\x0c", " \t ", "\t\t"];
+        let sep = *rng.pick(SEP);
+        let n = 1 + rng.below(3) as usize;
+        for _ in 0..n {
+            let idx: Vec<usize> = s.match_indices(' ').map(|(i, _)| i).collect();
+            if idx.is_empty() {
+                break;
+            }
+            let i = *rng.pick(&idx[..]);
+            s.replace_range(i..i + 1, sep);
+        }
+    }
+    match rng.below(6) {
+        0 => s.insert(0, ' '),
+        1 => s.insert(0, '\t'),
+        2 => s.insert_str(0, " \t  "),
+        3 => s.insert(0, '\x0c'),
+        4 => s.push_str(" \t"),
+        _ => {}
+    }
+    s
 }
 
 fn cfi_rules(rng: &mut Rng, arch: &str) -> String {
@@ -712,9 +795,31 @@ pub fn gen_world(rng: &mut Rng, arch: &str, with_cfi: bool) -> World {
                 };
                 recs.push(Rec::F { addr: at, size: size as u32, psize: rng.below(3) as u32 * 4, name: format!("f{i}x{k}") });
                 if with_cfi && rng.chance(2, 3) {
-                    recs.push(Rec::C { addr: at, size: if rng.chance(1, 8) { size as u32 / 2 } else { size as u32 }, rules: cfi_rules(rng, arch) });
+                    recs.push(Rec::C { addr: at, size: if rng.chance(1, 8) { size as u32 / 2 } else { size as u32 }, rules: cfi_rules_text(rng, arch) });
                     for _ in 0..rng.below(3) {
-                        recs.push(Rec::A { addr: at + rng.below(size.max(1) + 2), rules: cfi_rules(rng, arch) });
+                        recs.push(Rec::A { addr: at + rng.below(size.max(1) + 2), rules: cfi_rules_text(rng, arch) });
+                    }
+                    if rng.chance(1, 12) {
+                        // two deltas at ONE address that give one register different values and differ in
+                        // their leading blanks: which one wins is decided by the order of the STORED texts
+                        let a2 = at + rng.below(size.max(1) + 1);
+                        let r = match arch {
+                            "x86" => "$ebx",
+                            "amd64" => "$rbx",
+                            "arm" => "r4",
+                            "arm64" | "arm64old" => "x19",
+                            _ => "$s0",
+                        };
+                        let lead = *rng.pick(&[" ", "\t", "  ", " \t"]);
+                        let (v1, v2) = (1 + rng.below(4), 5 + rng.below(4)); // stored order: t2 < t1; order as written in the file: t1 < t2
+                        let (t1, t2) = (format!("{lead}{r}: {v2}"), format!("{r}: {v1}"));
+                        if rng.chance(1, 2) {
+                            recs.push(Rec::A { addr: a2, rules: t1 });
+                            recs.push(Rec::A { addr: a2, rules: t2 });
+                        } else {
+                            recs.push(Rec::A { addr: a2, rules: t2 });
+                            recs.push(Rec::A { addr: a2, rules: t1 });
+                        }
                     }
                 }
                 // next function: adjacent, gap, or overlapping
